@@ -47,6 +47,8 @@ class Register:
         self._alias_from = alias_from
         self._alias_slice = alias_slice
         if alias_slice is not None:
+            if isinstance(alias_slice.step, (int, float)) and alias_slice.step == 0:
+                raise JaqalError(f"Slice step of {name} cannot be zero.")
             if (
                 isinstance(alias_slice.start, AnnotatedValue)
                 or isinstance(alias_slice.stop, AnnotatedValue)
